@@ -597,9 +597,9 @@ LawWidth(cd, wv, pv, v, R) ==
                 d == n - n0
             IN IF cd.left THEN s = s0 \o [i \in 1..d |-> 32]
                ELSE IF cd.zero /\ Numeric(cd.conv)
-                    THEN \E q \in 0..Min(3, n0) :
-                           /\ s = SubSeq(s0, 1, q) \o [i \in 1..d |-> 48] \o SubSeq(s0, q + 1, n0)
-                           /\ \A t \in 1..q : s0[t] \in {45, 43, 32, 48, 120, 88}
+                    THEN LET q1 == IF n0 > 0 /\ s0[1] \in {45, 43, 32} THEN 1 ELSE 0
+                             q == IF cd.conv \in {120, 88} /\ cd.alt THEN q1 + 2 ELSE q1
+                         IN s = SubSeq(s0, 1, q) \o [i \in 1..d |-> 48] \o SubSeq(s0, q + 1, n0)
                     ELSE s = [i \in 1..d |-> 32] \o s0)
 
 \* i, u are d; a length modifier changes nothing; X E F G are the upper-case forms
